@@ -10,7 +10,7 @@ EXPLANATION = ("Same lifted runs of the four process models as C01 (flux solver,
                "as uninterpreted functions of (component, temperature)).  Per step: evaporation heat = sum_i J_i A dt HVAP_i(T_k)/M_i 1000; "
                "self-cooling update; programme value at k dt for the three programme kinds (the real TemperatureProgram.program runs); "
                "isothermal models keep T0; condensation heat is None iff no permeate temperature; isothermal vs non-isothermal twin agree at step 0.")
-OUTSIDE = "step counts above the bound; the value of the condensation heat (the statement fixes only when it is reported); float rounding"
+OUTSIDE = "step counts above the bound; the value of the condensation heat beyond the step-0 agreement of the isothermal / non-isothermal twins (the statement fixes only when it is reported); float rounding"
 R_ = "vf.props.C03:concrete"
 
 
@@ -76,6 +76,8 @@ def concrete_twin(inp):
     ca, cb = a.permeate_condensation_heat[0], b.permeate_condensation_heat[0]
     if (ca is None) != (cb is None):
         bad.append("condensation heat reported by one model only")
+    elif ca is not None and not close(ca, cb, 1e-9):
+        bad.append("condensation heat at step 0: %r (isothermal) vs %r (non-isothermal)" % (ca, cb))
     return {"ok": not bad, "detail": "%s %s: %s" % (fam, inp.get("mixture"), "; ".join(bad)), "inputs": inp}
 
 
@@ -185,6 +187,9 @@ def twin(job, family, mode, tier):
                     job.prove(tag + "/evaporation_heat_step0", cs, lift(ma.feed_evaporation_heat[0]) != lift(mb.feed_evaporation_heat[0]),
                               "vf.props.C03:concrete_twin", inputs, fallback=fb, congruence=sorted(set(cg)))
                     na, nb = ma.permeate_condensation_heat[0] is None, mb.permeate_condensation_heat[0] is None
+                    if not na and not nb:
+                        job.prove(tag + "/condensation_heat_step0", cs, lift(ma.permeate_condensation_heat[0]) != lift(mb.permeate_condensation_heat[0]),
+                                  "vf.props.C03:concrete_twin", inputs, fallback=fb, congruence=sorted(set(cg + ["COOL1", "COOL2"])))
                     job.record(tag + "/condensation_reported_alike", "discharged" if na == nb else "violated", "", nontrivial=False,
                                replay={"fn": "vf.props.C03:concrete_twin", "inputs": dict(fb[0], kind=kinds[0], mode=mode, basis=basis, N=1)})
                 if not got:
